@@ -83,7 +83,12 @@ def run_shard(desc, seed, tier, col):
         for f in run_case(case):
             col.fail(f['sub'], f['kind'], f['msg'], case, sig=f['sig'], obs=f.get('obs'))
 
-    harness.run_given(st.tuples(gen.type_and_value(CFG), st.data()), body, seed, desc['examples'], col)
+    # one case in eight from a universe of numbers only: the choice points of REAL (base, scaling factor, the four exponent
+    # length forms, decimal forms) and of the integers are met once in a few hundred general cases otherwise
+    numeric = gen.type_and_value(dict(CFG, kinds=['REAL', 'REAL', 'REAL', 'INTEGER', 'ENUMERATED', 'BOOLEAN'], max_depth=2, real10_pct=25,
+                                      real_wide_exp_pct=10))
+    tv = st.one_of(*([gen.type_and_value(CFG)] * 7 + [numeric]))
+    harness.run_given(st.tuples(tv, st.data()), body, seed, desc['examples'], col)
 
 
 
